@@ -168,6 +168,16 @@ Proof.
 Qed.
 Print Assumptions budget_identity_from_genesis.
 
+(** ... and every term is non-negative: released never exceeds funded, nor does refunded or remaining. *)
+Corollary released_never_exceeds_funded :
+  forall (b : ledger) (h : Z) (steps : list step) (pid : Z) (d : denom),
+    genesis_ok b h -> Forall valid_step steps ->
+    0 <= released_so_far (init b h) steps pid d <= funded (pools (run (init b h) steps)) pid d
+    /\ 0 <= refunded_so_far (init b h) steps pid d <= funded (pools (run (init b h) steps)) pid d
+    /\ 0 <= remaining (pools (run (init b h) steps)) pid d <= funded (pools (run (init b h) steps)) pid d.
+Proof. exact released_le_funded. Qed.
+Print Assumptions released_never_exceeds_funded.
+
 (** REFUND over whole histories.  [refund_count] counts the steps of a history that are a refund event for the pool
     (the end blocker with the pool's entry due, or a successful DestroyPool).  Never both, never twice: *)
 Theorem refund_never_twice :
@@ -292,6 +302,20 @@ Theorem payout_close_to_fair_share_on_histories :
         <= hist_sum (acts_in w pid) s steps * (P18 - 1)).
 Proof. intros w pid j steps s r R. exact (payout_model_lemma w pid j steps s r (reachable_inv _ R)). Qed.
 Print Assumptions payout_close_to_fair_share_on_histories.
+
+(** ... and the same without assuming that the pool or the rule exists at the start: from every reachable state in
+    which the farmer holds no stake in pool [pid] — in particular from genesis — for every pool id and rule position. *)
+Theorem payout_close_to_fair_share_from_genesis :
+  forall (w pid : Z) (j : nat) (b : ledger) (h : Z) (steps : list step),
+    genesis_ok b h -> Forall valid_step steps ->
+    hist_sum (paid_in w pid j) (init b h) steps * P18 <= hist_sum (fair_in w pid j) (init b h) steps
+    /\ (rec_of w pid (run (init b h) steps) = None ->
+        hist_sum (fair_in w pid j) (init b h) steps - hist_sum (paid_in w pid j) (init b h) steps * P18
+        <= hist_sum (acts_in w pid) (init b h) steps * (P18 - 1)).
+Proof.
+  intros w pid j b h steps G Hv. exact (payout_general_lemma w pid j steps (init b h) (inv_init b h G) Hv eq_refl).
+Qed.
+Print Assumptions payout_close_to_fair_share_from_genesis.
 
 Theorem harvest_frequency_independent_on_histories :
   forall (w pid : Z) (j : nat) (steps1 : list step) (s1 : state) (r1 : rule) (steps2 : list step) (s2 : state) (r2 : rule),
